@@ -84,8 +84,8 @@ class PopulationBalanceModel:
 
         #Hidden variable for use in KWNEuler when adaptive time stepping is enabled
         #This allows for PSD to revert to its previous value if a time constraint is not met
-        self._prevPSD = np.zeros(self.bins)
-        self._prevPSDbounds = np.zeros(self.bins+1)
+        #The backup starts as the empty PSD on the current size classes so that revert() is always valid
+        self.createBackup()
 
         #Temporary storage for net flux
         #This is used to correct the fluxes once the time step is known
